@@ -847,7 +847,7 @@ impl Stages for Plan {
                     (c.entry, c.leaf, true, c.depth.min(4)).hash(&mut h);
                     Verdict::Fine { class: h.finish(), ok: true }
                 }
-                nest::Out::Err(e) if c.depth > 3 || !c.entry.has_payload() => {
+                nest::Out::Err(e) if c.depth > c.entry.must_decode_depth() || !c.entry.has_payload() => {
                     (c.entry, c.leaf, false, norm_msg(&e)).hash(&mut h);
                     Verdict::Fine { class: h.finish(), ok: false }
                 }
